@@ -301,7 +301,7 @@ const CODEBYTES: &[&str] = &["2-byte", "1-byte"];
 const SECTION: &[&str] = &["bfchar", "bfrange-string", "bfrange-array", "mixed"];
 const HEXCASE: &[&str] = &["upper", "lower", "inner-ws"];
 const SEP: &[&str] = &["SP", "LF", "CRLF", "none", "comment"];
-const DEST: &[&str] = &["A", "AB", "supplementary", "U+00FE"];
+const DEST: &[&str] = &["A", "AB", "supplementary", "U+00FE", "U+FFFD", "U+00FF"];
 const RANGELEN: &[&str] = &["3", "1", "2"];
 const START: &[&str] = &["0x10", "0", "0xFD", "0xFFFD"];
 
@@ -344,7 +344,7 @@ pub fn cmap_case(ch: &mut Chooser, t: &mut Tally) {
     }
     let sep = ["\u{20}", "\n", "\r\n", "", "%c\n"][sepi];
     let code = |c: u16| if onebyte { hexs(&[c as u8], hexcase) } else { hexs(&c.to_be_bytes(), hexcase) };
-    let dest = ["A", "AB", "\u{1F600}", "\u{fe}"][desti];
+    let dest = ["A", "AB", "\u{1F600}", "\u{fe}", "\u{fffd}", "\u{ff}"][desti];
     let mut model: BTreeMap<u16, String> = BTreeMap::new();
     let mut body = String::new();
     // per spec a range with a string destination increments the last byte of the string; it must not overflow 255
